@@ -278,7 +278,7 @@ def reproduces(rep, res):
 # --------------------------------------------------------------------------- one harness
 
 def run_harness(h, fam, tier, logdir):
-    cap = fam.get('cap_s') or (QUICK_CAP if tier == 'quick' else THOROUGH_CAP)
+    cap = int(os.environ.get('VERIF_CAP', '0')) or fam.get('cap_s') or (QUICK_CAP if tier == 'quick' else THOROUGH_CAP)   # VERIF_CAP: development override
     mem = fam.get('mem_gb', 10)
     logpath = os.path.join(logdir, h + '.log')
     rc, wall = run_proc(kani_cmd(h, fam), KANI_DIR, logpath, cap, mem)
